@@ -561,6 +561,7 @@ func c12BlobFns(c *Ctx) {
 }
 
 var c12Canaries = []Canary{
+	{Name: "r6-everything-without-tags", ExpectKey: "C12.R3#migrate-everything:includes", Edits: []Edit{{File: "commands/command_migrate.go", Find: "\n\t\tfor _, ref := range refs {\n\t\t\tswitch ref.Type {\n\t\t\tcase git.RefTypeLocalBranch, git.RefTypeLocalTag,\n\t\t\t\tgit.RefTypeRemoteBranch:\n\n\t\t\t\tinclude = append(include, ref.Refspec())\n\t\t\tcase git.RefTypeOther:\n\t\t\t\tif isSpecialGitRef(ref.Refspec()) {\n\t\t\t\t\tcontinue\n", Repl: "\n\t\tfor _, ref := range refs {\n\t\t\tswitch ref.Type {\n\t\t\tcase git.RefTypeLocalBranch, git.RefTypeRemoteBranch:\n\t\t\t\tinclude = append(include, ref.Refspec())\n\t\t\tcase git.RefTypeLocalTag:\n\t\t\t\t// Tags are moved onto the rewritten commits by\n\t\t\t\t// the ref updater once the walk has finished.\n\t\t\t\tcontinue\n\t\t\tcase git.RefTypeOther:\n\t\t\t\tif isSpecialGitRef(ref.Refspec()) {\n\t\t\t\t\tcontinue\n"}}},
 	{Name: "r5-migrate-uses-fetch-options", ExpectKey: "C12.R2#no-fetch-options", Edits: []Edit{{File: "commands/command_migrate.go", Find: "buildFilepathFilterWithPatternType(cfg, include, exclude, false, filepathfilter.GitAttributes)", Repl: "buildFilepathFilterWithPatternType(cfg, include, exclude, true, filepathfilter.GitAttributes)"}}},
 	{Name: "r4-no-rewrite-restarts", ExpectKey: "C12.R2#no-rewrite", Edits: []Edit{{File: "commands/command_migrate_import.go", Find: "root, err = rewriteTree(gf, db, root, file)", Repl: "root, err = rewriteTree(gf, db, commit.TreeID, file)"}}},
 	{Name: "omit-extra-headers", ExpectKey: "C12.R1#commit-field:ExtraHeaders", Edits: []Edit{{File: "git/githistory/rewriter.go", Find: "			ExtraHeaders: original.ExtraHeaders,\n", Repl: ""}}},
